@@ -15,6 +15,11 @@ use crate::T;
 ///     **fragment** FragmentName TypeCondition Directives? SelectionSet
 pub(crate) fn fragment_definition(p: &mut Parser) {
     let _g = p.start_node(SyntaxKind::FRAGMENT_DEFINITION);
+    if let Some(TokenKind::StringValue) = p.peek() {
+        // `document()` looks past a description to select a definition,
+        // but a Fragment Definition does not have one
+        p.err_and_pop("expected a Fragment Definition, which cannot have a description");
+    }
     p.bump(SyntaxKind::fragment_KW);
 
     fragment_name(p);
